@@ -11,12 +11,28 @@ from scipy.linalg import eigvals
 from scipy.sparse._sparsetools import (csr_scale_rows, bsr_scale_rows,
                                        csr_scale_columns, bsr_scale_columns)
 
-# pylint: disable=unused-import
-from scipy.sparse.linalg._isolve.utils import make_system  # noqa: F401
+from scipy.sparse.linalg._isolve.utils import make_system as _scipy_make_system
 from scipy.sparse._sputils import upcast
 
 from .. import amg_core
 from . import linalg
+
+
+def make_system(A, M, x0, b):
+    """Make a linear system Ax=b (SciPy helper, with the ``postprocess`` return value).
+
+    Newer SciPy releases return ``(A, M, x, b)``; older ones also returned a
+    ``postprocess`` callable (the identity).  The Krylov solvers expect five values.
+    """
+    out = _scipy_make_system(A, M, x0, b)
+    if len(out) == 4:
+        A, M, x, b = out
+        return A, M, x, b, _identity
+    return out
+
+
+def _identity(x):
+    return x
 
 
 def get_blocksize(A):
